@@ -394,3 +394,48 @@ pub fn pending_fn_set(v: Option<usize>) {
 pub fn pending_fn() -> Option<usize> {
     PENDING_FN.with(|c| c.get())
 }
+
+// What the active call frames hold (C03): a frame records the bytecode function it runs and, for a
+// closure call, only a raw pointer into the closure object's upvalue vector.  The audit needs to
+// know which heap objects those are, independently of what `collect` marks.
+#[derive(Debug, Clone, PartialEq, Eq)]
+pub struct AuditFrame {
+    /// heap index of `frame.function()`
+    pub function: usize,
+    /// the frame has a non-empty upvalue array
+    pub has_upvalues: bool,
+    /// heap index of the live closure object whose upvalue vector the frame points into
+    pub closure: Option<usize>,
+}
+
+impl crate::vm::VM {
+    pub fn verif_frames(&self) -> Vec<AuditFrame> {
+        use aelys_bytecode::object::ObjectKind;
+        let mut out = Vec::new();
+        for f in &self.frames {
+            // host calls (call_api) point the frame at `current_upvalues`, which `collect` marks itself
+            let has_upvalues = !f.upvalues_ptr.is_null()
+                && f.upvalues_len > 0
+                && f.upvalues_ptr != self.current_upvalues.as_ptr();
+            let mut closure = None;
+            if has_upvalues {
+                let live = self.heap.object_count();
+                let (mut seen, mut idx) = (0usize, 0usize);
+                while seen < live {
+                    if let Some(obj) = self.heap.get(crate::vm::GcRef::new(idx)) {
+                        seen += 1;
+                        if let ObjectKind::Closure(c) = &obj.kind {
+                            if c.upvalues.as_ptr() == f.upvalues_ptr && !c.upvalues.is_empty() {
+                                closure = Some(idx);
+                                break;
+                            }
+                        }
+                    }
+                    idx += 1;
+                }
+            }
+            out.push(AuditFrame { function: f.function().index(), has_upvalues, closure });
+        }
+        out
+    }
+}
